@@ -3,6 +3,11 @@
    input line ("run <event> <event> ..."), one result line per case.
 
    Events (all single-threaded, deterministic):
+     base=<b>       (first token) behave like a connection whose serial counter stands at b: the harness keeps the counter
+                    itself (same wrap rule) and gives every message it sends its serial with dbus_message_set_serial
+                    before sending, so libdbus never draws from its own counter; everything else is the real library
+     realbase=<b>   (first token) really advance the library's counter to b by calling the exported
+                    _dbus_connection_get_next_client_serial b-1 times (seconds for b near 2^31)
      S,<ms>,<n>     dbus_connection_send_with_reply, timeout <ms> (inf = DBUS_TIMEOUT_INFINITE), set_notify iff n=1
      P              dbus_connection_send of a signal (consumes a serial)
      M,<k>,c<i>,<tag> / M,<k>,#<serial>,<tag>
@@ -27,6 +32,7 @@
 #include <unistd.h>
 #include <signal.h>
 #include <pthread.h>
+#include <dbus/dbus-connection-internal.h>
 
 #define MAXCALLS 16
 #define OUTSZ 16384
@@ -205,6 +211,10 @@ static void teardown (void)
     }
 }
 
+static int use_shadow;
+static dbus_uint32_t shadow;
+static void shadow_advance (void) { shadow++; if (shadow == 0) shadow = 1; }
+
 static DBusMessage *new_call_msg (void)
 {
   return dbus_message_new_method_call ("org.x.Peer", "/org/x", "org.x.I", "M");
@@ -217,11 +227,13 @@ static void ev_send (const char *a1, const char *a2)
   ms = strcmp (a1, "inf") == 0 ? DBUS_TIMEOUT_INFINITE : atoi (a1);
   nf = atoi (a2);
   m = new_call_msg ();
+  if (use_shadow) dbus_message_set_serial (m, shadow);
   cur_send = ncalls;
   calls[ncalls].to = NULL; calls[ncalls].registered = 0; calls[ncalls].ncount = 0; calls[ncalls].has_notify = nf;
   if (!dbus_connection_send_with_reply (client, m, &p, ms)) { emit ("!oom"); cur_send = -1; dbus_message_unref (m); return; }
   cur_send = -1;
   if (p == NULL) { emit ("s-"); dbus_message_unref (m); return; }
+  if (use_shadow) shadow_advance ();
   calls[ncalls].p = p;
   calls[ncalls].serial = dbus_message_get_serial (m);
   emit ("s%u", calls[ncalls].serial);
@@ -235,6 +247,7 @@ static void ev_plain (void)
 {
   DBusMessage *m = dbus_message_new_signal ("/org/x", "org.x.I", "Sig");
   dbus_uint32_t serial = 0;
+  if (use_shadow) { dbus_message_set_serial (m, shadow); shadow_advance (); }
   dbus_connection_send (client, m, &serial);
   emit ("p%u", serial);
   dbus_message_unref (m);
@@ -389,8 +402,18 @@ int main (void)
       alarm (30);
       if (setup ())
         {
+          use_shadow = 0;
           while ((tok = strtok_r (NULL, " ", &save)) != NULL)
             {
+              if (first && strncmp (tok, "base=", 5) == 0)
+                { use_shadow = 1; shadow = (dbus_uint32_t) strtoul (tok + 5, NULL, 10); continue; }
+              if (first && strncmp (tok, "realbase=", 9) == 0)
+                {
+                  dbus_uint32_t target = (dbus_uint32_t) strtoul (tok + 9, NULL, 10), k;
+                  alarm (300);
+                  for (k = 1; k < target; k++) _dbus_connection_get_next_client_serial (client);
+                  continue;
+                }
               if (!first) emit (";");
               first = 0;
               run_event (tok);
